@@ -105,6 +105,7 @@ func c20Families() []costFamily {
 		{"or-tautologies", func(n int) string { return "SELECT a FROM t WHERE c = 0" + rep(" OR 1 = 1", n) }, 500},
 		{"tautology-statements", func(n int) string { return rep("SELECT * FROM t WHERE a = 1 OR 1=1;\n", n) }, 500},
 		{"match-against-nest", func(n int) string { return "SELECT " + rep("MATCH(a) AGAINST (", n) + "'x'" + rep(")", n) + " FROM t" }, 200},
+		{"cast-type-params", func(n int) string { return "SELECT CAST(x AS DECIMAL(1" + rep(",1", n) + ")) FROM t" }, 500},
 		{"match-mode-words", func(n int) string { return "SELECT MATCH(a) AGAINST ('x'" + rep(" w", n) + ") FROM t" }, 500},
 		{"sign-chain-not", func(n int) string { return "SELECT a FROM t WHERE a = 1" + rep(" AND NOT a = 1", n) }, 500},
 	}
